@@ -40,327 +40,327 @@ From Mos Require Import Base.Prelude.
 Local Open Scope N_scope.
 
 (* ---------- association lists (Go maps; thread table) ---------- *)
-Fixpoint alookup {A} (k : N) (l : list (N * A)) : option A :=
+Fixpoint pl_alookup {A} (k : N) (l : list (N * A)) : option A :=
   match l with
   | [] => None
-  | (k', v) :: r => if k =? k' then Some v else alookup k r
+  | (k', v) :: r => if k =? k' then Some v else pl_alookup k r
   end.
 
-Fixpoint aremove {A} (k : N) (l : list (N * A)) : list (N * A) :=
+Fixpoint pl_aremove {A} (k : N) (l : list (N * A)) : list (N * A) :=
   match l with
   | [] => []
-  | (k', v) :: r => if k =? k' then aremove k r else (k', v) :: aremove k r
+  | (k', v) :: r => if k =? k' then pl_aremove k r else (k', v) :: pl_aremove k r
   end.
 
 (* m[k] = v *)
-Definition aset {A} (k : N) (v : A) (l : list (N * A)) : list (N * A) := (k, v) :: aremove k l.
+Definition pl_aset {A} (k : N) (v : A) (l : list (N * A)) : list (N * A) := (k, v) :: pl_aremove k l.
 
 (* replace the value of an existing key in place (first match; keys of the thread table are unique) *)
-Fixpoint aupd {A} (k : N) (v : A) (l : list (N * A)) : list (N * A) :=
+Fixpoint pl_aupd {A} (k : N) (v : A) (l : list (N * A)) : list (N * A) :=
   match l with
   | [] => []
-  | (k', v') :: r => if k =? k' then (k', v) :: r else (k', v') :: aupd k v r
+  | (k', v') :: r => if k =? k' then (k', v) :: r else (k', v') :: pl_aupd k v r
   end.
 
 (* ---------- data ---------- *)
 (* a DNS message as far as C05 is concerned: ghost instance number, header id, payload tag *)
-Record pmsg := mkPmsg { mid : N; mhid : N; mtag : N }.
-Definition with_id (m : pmsg) (i : N) : pmsg := mkPmsg (mid m) i (mtag m).
+Record pl_msg := PlMkMsg { pl_mid : N; pl_mhid : N; pl_mtag : N }.
+Definition pl_with_id (m : pl_msg) (i : N) : pl_msg := PlMkMsg (pl_mid m) i (pl_mtag m).
 
-Inductive presult := RMsg (m : pmsg) | RErrCtx | RErrClosed | RErrEoL | RErrWrite.
+Inductive pl_result := PlRMsg (m : pl_msg) | PlRErrCtx | PlRErrClosed | PlRErrEoL | PlRErrWrite.
 
 (* program counter of an exchange; Written and Waiting of the design coincide (no atomic action between
    the return of write and the select) *)
-Inductive xpc :=
-| PStart                    (* before addQueueC *)
-| PAdded                    (* id assigned, queue entry present, query not yet written *)
-| PWaiting                  (* written; blocked in select *)
-| PLeaving (r : presult)     (* outcome chosen; deferred deleteQueueC pending *)
-| PEol (r : presult)         (* deleteQueueC found eol = true; closeWithErr(EoL) pending *)
-| PReturned (r : presult).
+Inductive pl_pc :=
+| PlPStart                    (* before addQueueC *)
+| PlPAdded                    (* id assigned, queue entry present, query not yet written *)
+| PlPWaiting                  (* written; blocked in select *)
+| PlPLeaving (r : pl_result)     (* outcome chosen; deferred deleteQueueC pending *)
+| PlPEol (r : pl_result)         (* deleteQueueC found eol = true; closeWithErr(EoL) pending *)
+| PlPReturned (r : pl_result).
 
-Record pthread := mkPthread {
-  cid : N;                  (* caller's id = be16(m[0:2]) *)
-  twid : option N;          (* wire id assigned by addQueueC *)
-  tpc : xpc;
-  tchan : option pmsg;       (* respChan, capacity 1 *)
-  tcancel : bool            (* ctx.Done() closed *)
+Record pl_thread := PlMkThread {
+  pl_cid : N;                  (* caller's id = be16(m[0:2]) *)
+  pl_twid : option N;          (* wire id assigned by addQueueC *)
+  pl_tpc : pl_pc;
+  pl_tchan : option pl_msg;       (* respChan, capacity 1 *)
+  pl_tcancel : bool            (* ctx.Done() closed *)
 }.
 
-Inductive rloop := RIdle | RHold (m : pmsg) | RSend (m : pmsg) (t : N).
+Inductive pl_rloop := PlRIdle | PlRHold (m : pl_msg) | PlRSend (m : pl_msg) (t : N).
 
-Record pstate := mkPstate {
-  istcp : bool;
-  nextQid : N;
-  reserved : N;
-  queue : list (N * N);          (* wire id |-> thread whose respChan is registered *)
-  closed : bool;
-  threads : list (N * pthread);   (* newest first; key = spawn number *)
-  nthreads : N;
-  rl : rloop;
-  emitted : list pmsg;            (* ghost, newest first *)
-  nemit : N;                     (* ghost *)
-  alog : list (N * N)            (* ghost, newest first: (thread, wire id) *)
+Record pl_state := PlMkState {
+  pl_istcp : bool;
+  pl_nextQid : N;
+  pl_reserved : N;
+  pl_queue : list (N * N);          (* wire id |-> thread whose respChan is registered *)
+  pl_closed : bool;
+  pl_threads : list (N * pl_thread);   (* newest first; key = spawn number *)
+  pl_nthreads : N;
+  pl_rl : pl_rloop;
+  pl_emitted : list pl_msg;            (* ghost, newest first *)
+  pl_nemit : N;                     (* ghost *)
+  pl_alog : list (N * N)            (* ghost, newest first: (thread, wire id) *)
 }.
 
-Definition pinit (tcp : bool) (q0 : N) : pstate :=
-  mkPstate tcp q0 0 [] false [] 0 RIdle [] 0 [].
+Definition pl_init (tcp : bool) (q0 : N) : pl_state :=
+  PlMkState tcp q0 0 [] false [] 0 PlRIdle [] 0 [].
 
 (* field updates *)
-Definition set_nextQid v s := mkPstate (istcp s) v (reserved s) (queue s) (closed s) (threads s) (nthreads s) (rl s) (emitted s) (nemit s) (alog s).
-Definition set_reserved v s := mkPstate (istcp s) (nextQid s) v (queue s) (closed s) (threads s) (nthreads s) (rl s) (emitted s) (nemit s) (alog s).
-Definition set_queue v s := mkPstate (istcp s) (nextQid s) (reserved s) v (closed s) (threads s) (nthreads s) (rl s) (emitted s) (nemit s) (alog s).
-Definition set_closed v s := mkPstate (istcp s) (nextQid s) (reserved s) (queue s) v (threads s) (nthreads s) (rl s) (emitted s) (nemit s) (alog s).
-Definition set_threads v s := mkPstate (istcp s) (nextQid s) (reserved s) (queue s) (closed s) v (nthreads s) (rl s) (emitted s) (nemit s) (alog s).
-Definition set_nthreads v s := mkPstate (istcp s) (nextQid s) (reserved s) (queue s) (closed s) (threads s) v (rl s) (emitted s) (nemit s) (alog s).
-Definition set_rl v s := mkPstate (istcp s) (nextQid s) (reserved s) (queue s) (closed s) (threads s) (nthreads s) v (emitted s) (nemit s) (alog s).
-Definition set_emitted v n s := mkPstate (istcp s) (nextQid s) (reserved s) (queue s) (closed s) (threads s) (nthreads s) (rl s) v n (alog s).
-Definition set_alog v s := mkPstate (istcp s) (nextQid s) (reserved s) (queue s) (closed s) (threads s) (nthreads s) (rl s) (emitted s) (nemit s) v.
+Definition pl_set_nextQid v s := PlMkState (pl_istcp s) v (pl_reserved s) (pl_queue s) (pl_closed s) (pl_threads s) (pl_nthreads s) (pl_rl s) (pl_emitted s) (pl_nemit s) (pl_alog s).
+Definition pl_set_reserved v s := PlMkState (pl_istcp s) (pl_nextQid s) v (pl_queue s) (pl_closed s) (pl_threads s) (pl_nthreads s) (pl_rl s) (pl_emitted s) (pl_nemit s) (pl_alog s).
+Definition pl_set_queue v s := PlMkState (pl_istcp s) (pl_nextQid s) (pl_reserved s) v (pl_closed s) (pl_threads s) (pl_nthreads s) (pl_rl s) (pl_emitted s) (pl_nemit s) (pl_alog s).
+Definition pl_set_closed v s := PlMkState (pl_istcp s) (pl_nextQid s) (pl_reserved s) (pl_queue s) v (pl_threads s) (pl_nthreads s) (pl_rl s) (pl_emitted s) (pl_nemit s) (pl_alog s).
+Definition pl_set_threads v s := PlMkState (pl_istcp s) (pl_nextQid s) (pl_reserved s) (pl_queue s) (pl_closed s) v (pl_nthreads s) (pl_rl s) (pl_emitted s) (pl_nemit s) (pl_alog s).
+Definition pl_set_nthreads v s := PlMkState (pl_istcp s) (pl_nextQid s) (pl_reserved s) (pl_queue s) (pl_closed s) (pl_threads s) v (pl_rl s) (pl_emitted s) (pl_nemit s) (pl_alog s).
+Definition pl_set_rl v s := PlMkState (pl_istcp s) (pl_nextQid s) (pl_reserved s) (pl_queue s) (pl_closed s) (pl_threads s) (pl_nthreads s) v (pl_emitted s) (pl_nemit s) (pl_alog s).
+Definition pl_set_emitted v n s := PlMkState (pl_istcp s) (pl_nextQid s) (pl_reserved s) (pl_queue s) (pl_closed s) (pl_threads s) (pl_nthreads s) (pl_rl s) v n (pl_alog s).
+Definition pl_set_alog v s := PlMkState (pl_istcp s) (pl_nextQid s) (pl_reserved s) (pl_queue s) (pl_closed s) (pl_threads s) (pl_nthreads s) (pl_rl s) (pl_emitted s) (pl_nemit s) v.
 
-Definition tget (s : pstate) (t : N) : option pthread := alookup t (threads s).
-Definition tput (t : N) (th : pthread) (s : pstate) : pstate := set_threads (aupd t th (threads s)) s.
+Definition pl_tget (s : pl_state) (t : N) : option pl_thread := pl_alookup t (pl_threads s).
+Definition pl_tput (t : N) (th : pl_thread) (s : pl_state) : pl_state := pl_set_threads (pl_aupd t th (pl_threads s)) s.
 
-Definition th_pc (p : xpc) (th : pthread) := mkPthread (cid th) (twid th) p (tchan th) (tcancel th).
-Definition th_wid (w : option N) (th : pthread) := mkPthread (cid th) w (tpc th) (tchan th) (tcancel th).
-Definition th_chan (c : option pmsg) (th : pthread) := mkPthread (cid th) (twid th) (tpc th) c (tcancel th).
-Definition th_cancel (b : bool) (th : pthread) := mkPthread (cid th) (twid th) (tpc th) (tchan th) b.
+Definition pl_th_pc (p : pl_pc) (th : pl_thread) := PlMkThread (pl_cid th) (pl_twid th) p (pl_tchan th) (pl_tcancel th).
+Definition pl_th_wid (w : option N) (th : pl_thread) := PlMkThread (pl_cid th) w (pl_tpc th) (pl_tchan th) (pl_tcancel th).
+Definition pl_th_chan (c : option pl_msg) (th : pl_thread) := PlMkThread (pl_cid th) (pl_twid th) (pl_tpc th) c (pl_tcancel th).
+Definition pl_th_cancel (b : bool) (th : pl_thread) := PlMkThread (pl_cid th) (pl_twid th) (pl_tpc th) (pl_tchan th) b.
 
 (* connpool.ConnStatus *)
-Definition status_closed (s : pstate) : bool := closed s.
-Definition status_available (s : pstate) : bool := nextQid s + reserved s <=? 65535.
+Definition pl_status_closed (s : pl_state) : bool := pl_closed s.
+Definition pl_status_available (s : pl_state) : bool := pl_nextQid s + pl_reserved s <=? 65535.
 
-Inductive plabel :=
-| LSpawn (c : N)              (* a caller enters exchange with a query whose id is c *)
-| LCancel (t : N)             (* the caller's context is cancelled / times out *)
-| LReserve                    (* connpool picked the connection: Reserve() *)
-| LAdd (t : N)                (* addQueueC *)
-| LWrite (t : N) (ok : bool)  (* write: net.Conn.Write succeeded / failed *)
-| LRecv (i tag : N)           (* read loop received a well-formed message with header id i *)
-| LGarbage                    (* read loop received an undecodable message *)
-| LLookup                     (* getQueueC(r.Header.ID) *)
-| LSend                       (* select { case resChan <- r: default: } *)
-| LTakeReply (t : N)          (* select arm: r := <-respChan *)
-| LCtxArm (t : N)             (* select arm: <-ctx.Done() *)
-| LConnArm (t : N)            (* select arm: <-c.ctx.Done() *)
-| LDelete (t : N)             (* deferred deleteQueueC: critical section *)
-| LEolClose (t : N)           (* deleteQueueC: closeWithErr(errPipelineConnEoL) *)
-| LClose.                     (* closeWithErr for any other reason *)
+Inductive pl_label :=
+| PlLSpawn (c : N)              (* a caller enters exchange with a query whose id is c *)
+| PlLCancel (t : N)             (* the caller's context is cancelled / times out *)
+| PlLReserve                    (* connpool picked the connection: Reserve() *)
+| PlLAdd (t : N)                (* addQueueC *)
+| PlLWrite (t : N) (ok : bool)  (* write: net.Conn.Write succeeded / failed *)
+| PlLRecv (i tag : N)           (* read loop received a well-formed message with header id i *)
+| PlLGarbage                    (* read loop received an undecodable message *)
+| PlLLookup                     (* getQueueC(r.Header.ID) *)
+| PlLSend                       (* select { case resChan <- r: default: } *)
+| PlLTakeReply (t : N)          (* select arm: r := <-respChan *)
+| PlLCtxArm (t : N)             (* select arm: <-ctx.Done() *)
+| PlLConnArm (t : N)            (* select arm: <-c.ctx.Done() *)
+| PlLDelete (t : N)             (* deferred deleteQueueC: critical section *)
+| PlLEolClose (t : N)           (* deleteQueueC: closeWithErr(errPipelineConnEoL) *)
+| PlLClose.                     (* closeWithErr for any other reason *)
 
-Definition is_nil {A} (l : list A) : bool := match l with [] => true | _ => false end.
+Definition pl_is_nil {A} (l : list A) : bool := match l with [] => true | _ => false end.
 
-Definition pstep (s : pstate) (l : plabel) : option pstate :=
+Definition pl_step (s : pl_state) (l : pl_label) : option pl_state :=
   match l with
-  | LSpawn c =>
-      Some (set_nthreads (nthreads s + 1)
-             (set_threads ((nthreads s, mkPthread c None PStart None false) :: threads s) s))
-  | LCancel t =>
-      match tget s t with
-      | Some th => Some (tput t (th_cancel true th) s)
+  | PlLSpawn c =>
+      Some (pl_set_nthreads (pl_nthreads s + 1)
+             (pl_set_threads ((pl_nthreads s, PlMkThread c None PlPStart None false) :: pl_threads s) s))
+  | PlLCancel t =>
+      match pl_tget s t with
+      | Some th => Some (pl_tput t (pl_th_cancel true th) s)
       | None => None
       end
-  | LReserve =>
-      Some (if nextQid s + reserved s <? 65535 then set_reserved (reserved s + 1) s else s)
-  | LAdd t =>
-      match tget s t with
+  | PlLReserve =>
+      Some (if pl_nextQid s + pl_reserved s <? 65535 then pl_set_reserved (pl_reserved s + 1) s else s)
+  | PlLAdd t =>
+      match pl_tget s t with
       | Some th =>
-          match tpc th with
-          | PStart =>
-              let s1 := if 0 <? reserved s then set_reserved (reserved s - 1) s else s in
-              if 65535 <? nextQid s then
-                Some (tput t (th_pc (PReturned RErrEoL) th) s1)
+          match pl_tpc th with
+          | PlPStart =>
+              let s1 := if 0 <? pl_reserved s then pl_set_reserved (pl_reserved s - 1) s else s in
+              if 65535 <? pl_nextQid s then
+                Some (pl_tput t (pl_th_pc (PlPReturned PlRErrEoL) th) s1)
               else
-                let q := nextQid s mod 65536 in                    (* qid := uint16(c.nextQid) *)
-                Some (tput t (th_pc PAdded (th_wid (Some q) th))
-                       (set_alog ((t, q) :: alog s)
-                         (set_queue (aset q t (queue s))
-                           (set_nextQid (nextQid s + 1) s1))))
+                let q := pl_nextQid s mod 65536 in                    (* qid := uint16(c.nextQid) *)
+                Some (pl_tput t (pl_th_pc PlPAdded (pl_th_wid (Some q) th))
+                       (pl_set_alog ((t, q) :: pl_alog s)
+                         (pl_set_queue (pl_aset q t (pl_queue s))
+                           (pl_set_nextQid (pl_nextQid s + 1) s1))))
           | _ => None
           end
       | None => None
       end
-  | LWrite t ok =>
-      match tget s t with
+  | PlLWrite t ok =>
+      match pl_tget s t with
       | Some th =>
-          match tpc th with
-          | PAdded =>
-              if ok then (if closed s then None else Some (tput t (th_pc PWaiting th) s))
-              else Some (tput t (th_pc (PLeaving RErrWrite) th) s)
+          match pl_tpc th with
+          | PlPAdded =>
+              if ok then (if pl_closed s then None else Some (pl_tput t (pl_th_pc PlPWaiting th) s))
+              else Some (pl_tput t (pl_th_pc (PlPLeaving PlRErrWrite) th) s)
           | _ => None
           end
       | None => None
       end
-  | LRecv i tag =>
-      if closed s then None else
+  | PlLRecv i tag =>
+      if pl_closed s then None else
       if i <? 65536 then
-        match rl s with
-        | RIdle =>
-            let m := mkPmsg (nemit s) i tag in
-            Some (set_rl (RHold m) (set_emitted (m :: emitted s) (nemit s + 1) s))
+        match pl_rl s with
+        | PlRIdle =>
+            let m := PlMkMsg (pl_nemit s) i tag in
+            Some (pl_set_rl (PlRHold m) (pl_set_emitted (m :: pl_emitted s) (pl_nemit s + 1) s))
         | _ => None
         end
       else None
-  | LGarbage =>
-      if closed s then None else
-      match rl s with
-      | RIdle => Some (if istcp s then set_closed true s else s)
+  | PlLGarbage =>
+      if pl_closed s then None else
+      match pl_rl s with
+      | PlRIdle => Some (if pl_istcp s then pl_set_closed true s else s)
       | _ => None
       end
-  | LLookup =>
-      match rl s with
-      | RHold m =>
-          Some (set_rl (match alookup (mhid m) (queue s) with Some t => RSend m t | None => RIdle end) s)
+  | PlLLookup =>
+      match pl_rl s with
+      | PlRHold m =>
+          Some (pl_set_rl (match pl_alookup (pl_mhid m) (pl_queue s) with Some t => PlRSend m t | None => PlRIdle end) s)
       | _ => None
       end
-  | LSend =>
-      match rl s with
-      | RSend m t =>
-          match tget s t with
+  | PlLSend =>
+      match pl_rl s with
+      | PlRSend m t =>
+          match pl_tget s t with
           | Some th =>
-              Some (set_rl RIdle
-                     (match tchan th with
-                      | None => tput t (th_chan (Some m) th) s
+              Some (pl_set_rl PlRIdle
+                     (match pl_tchan th with
+                      | None => pl_tput t (pl_th_chan (Some m) th) s
                       | Some _ => s                                 (* default: arm, message dropped *)
                       end))
           | None => None
           end
       | _ => None
       end
-  | LTakeReply t =>
-      match tget s t with
+  | PlLTakeReply t =>
+      match pl_tget s t with
       | Some th =>
-          match tpc th, tchan th with
-          | PWaiting, Some m =>
-              Some (tput t (th_pc (PLeaving (RMsg (with_id m (cid th)))) (th_chan None th)) s)
+          match pl_tpc th, pl_tchan th with
+          | PlPWaiting, Some m =>
+              Some (pl_tput t (pl_th_pc (PlPLeaving (PlRMsg (pl_with_id m (pl_cid th)))) (pl_th_chan None th)) s)
           | _, _ => None
           end
       | None => None
       end
-  | LCtxArm t =>
-      match tget s t with
+  | PlLCtxArm t =>
+      match pl_tget s t with
       | Some th =>
-          match tpc th with
-          | PWaiting => if tcancel th then Some (tput t (th_pc (PLeaving RErrCtx) th) s) else None
+          match pl_tpc th with
+          | PlPWaiting => if pl_tcancel th then Some (pl_tput t (pl_th_pc (PlPLeaving PlRErrCtx) th) s) else None
           | _ => None
           end
       | None => None
       end
-  | LConnArm t =>
-      match tget s t with
+  | PlLConnArm t =>
+      match pl_tget s t with
       | Some th =>
-          match tpc th with
-          | PWaiting => if closed s then Some (tput t (th_pc (PLeaving RErrClosed) th) s) else None
+          match pl_tpc th with
+          | PlPWaiting => if pl_closed s then Some (pl_tput t (pl_th_pc (PlPLeaving PlRErrClosed) th) s) else None
           | _ => None
           end
       | None => None
       end
-  | LDelete t =>
-      match tget s t with
+  | PlLDelete t =>
+      match pl_tget s t with
       | Some th =>
-          match tpc th, twid th with
-          | PLeaving r, Some w =>
-              let q' := aremove w (queue s) in
-              let eol := (65535 <? nextQid s) && is_nil q' in
-              Some (tput t (th_pc (if eol then PEol r else PReturned r) th) (set_queue q' s))
+          match pl_tpc th, pl_twid th with
+          | PlPLeaving r, Some w =>
+              let q' := pl_aremove w (pl_queue s) in
+              let eol := (65535 <? pl_nextQid s) && pl_is_nil q' in
+              Some (pl_tput t (pl_th_pc (if eol then PlPEol r else PlPReturned r) th) (pl_set_queue q' s))
           | _, _ => None
           end
       | None => None
       end
-  | LEolClose t =>
-      match tget s t with
+  | PlLEolClose t =>
+      match pl_tget s t with
       | Some th =>
-          match tpc th with
-          | PEol r => Some (tput t (th_pc (PReturned r) th) (set_closed true s))
+          match pl_tpc th with
+          | PlPEol r => Some (pl_tput t (pl_th_pc (PlPReturned r) th) (pl_set_closed true s))
           | _ => None
           end
       | None => None
       end
-  | LClose => Some (set_closed true s)
+  | PlLClose => Some (pl_set_closed true s)
   end.
 
-Fixpoint run (ls : list plabel) (s : pstate) : option pstate :=
+Fixpoint pl_run (ls : list pl_label) (s : pl_state) : option pl_state :=
   match ls with
   | [] => Some s
-  | l :: r => match pstep s l with Some s' => run r s' | None => None end
+  | l :: r => match pl_step s l with Some s' => pl_run r s' | None => None end
   end.
 
 (* ---------- deterministic big-step for quiescent histories ---------- *)
 (* Each external event is followed by running every enabled internal action to completion.  The big step
    only ever moves through [step] ([exec] = take the step when enabled), so it is a schedule of the LTS by
    construction (big_refines_small). *)
-Definition pexec (s : pstate) (l : plabel) : pstate :=
-  match pstep s l with Some s' => s' | None => s end.
+Definition pl_exec (s : pl_state) (l : pl_label) : pl_state :=
+  match pl_step s l with Some s' => s' | None => s end.
 
-Definition settle (t : N) (s : pstate) : pstate :=
-  fold_left pexec [LTakeReply t; LCtxArm t; LConnArm t; LDelete t; LEolClose t] s.
+Definition pl_settle (t : N) (s : pl_state) : pl_state :=
+  fold_left pl_exec [PlLTakeReply t; PlLCtxArm t; PlLConnArm t; PlLDelete t; PlLEolClose t] s.
 
-Definition settle_all (s : pstate) : pstate :=
-  fold_left (fun s kt => settle (fst kt) s) (threads s) s.
+Definition pl_settle_all (s : pl_state) : pl_state :=
+  fold_left (fun s kt => pl_settle (fst kt) s) (pl_threads s) s.
 
-Inductive pevent :=
-| EvStart (c : N)             (* a new exchange (thread number = number of earlier EvStart) *)
-| EvReplyTo (k tag : N)       (* server emits a message carrying the wire id of exchange k *)
-| EvEmitId (i tag : N)        (* server emits a message with header id i *)
-| EvGarbage
-| EvCancel (k : N)
-| EvClose.
+Inductive pl_event :=
+| PlEvStart (c : N)             (* a new exchange (thread number = number of earlier EvStart) *)
+| PlEvReplyTo (k tag : N)       (* server emits a message carrying the wire id of exchange k *)
+| PlEvEmitId (i tag : N)        (* server emits a message with header id i *)
+| PlEvGarbage
+| PlEvCancel (k : N)
+| PlEvClose.
 
-Definition do_emit (i tag : N) (s : pstate) : pstate :=
-  let s1 := pexec (pexec s (LRecv i tag)) LLookup in
-  let tgt := match rl s1 with RSend _ t => Some t | _ => None end in
-  let s2 := pexec s1 LSend in
-  match tgt with Some t => settle t s2 | None => s2 end.
+Definition pl_do_emit (i tag : N) (s : pl_state) : pl_state :=
+  let s1 := pl_exec (pl_exec s (PlLRecv i tag)) PlLLookup in
+  let tgt := match pl_rl s1 with PlRSend _ t => Some t | _ => None end in
+  let s2 := pl_exec s1 PlLSend in
+  match tgt with Some t => pl_settle t s2 | None => s2 end.
 
-Definition big_step (s : pstate) (e : pevent) : pstate :=
+Definition pl_big_step (s : pl_state) (e : pl_event) : pl_state :=
   match e with
-  | EvStart c =>
-      let t := nthreads s in
-      settle t (fold_left pexec [LSpawn c; LAdd t; LWrite t true; LWrite t false] s)
-  | EvReplyTo k tag =>
-      match tget s k with
-      | Some th => match twid th with Some w => do_emit w tag s | None => s end
+  | PlEvStart c =>
+      let t := pl_nthreads s in
+      pl_settle t (fold_left pl_exec [PlLSpawn c; PlLAdd t; PlLWrite t true; PlLWrite t false] s)
+  | PlEvReplyTo k tag =>
+      match pl_tget s k with
+      | Some th => match pl_twid th with Some w => pl_do_emit w tag s | None => s end
       | None => s
       end
-  | EvEmitId i tag => do_emit i tag s
-  | EvGarbage => settle_all (pexec s LGarbage)
-  | EvCancel k => settle k (pexec s (LCancel k))
-  | EvClose => settle_all (pexec s LClose)
+  | PlEvEmitId i tag => pl_do_emit i tag s
+  | PlEvGarbage => pl_settle_all (pl_exec s PlLGarbage)
+  | PlEvCancel k => pl_settle k (pl_exec s (PlLCancel k))
+  | PlEvClose => pl_settle_all (pl_exec s PlLClose)
   end.
 
-Definition run_history (tcp : bool) (q0 : N) (evs : list pevent) : pstate :=
-  fold_left big_step evs (pinit tcp q0).
+Definition pl_run_history (tcp : bool) (q0 : N) (evs : list pl_event) : pl_state :=
+  fold_left pl_big_step evs (pl_init tcp q0).
 
 (* observable per exchange, oldest first: (result or still-waiting, wire id the server saw) *)
-Inductive poutcome := OMsg (tag : N) (idok : bool) | OErr | OWait.
+Inductive pl_outcome := PlOMsg (tag : N) (idok : bool) | PlOErr | PlOWait.
 
-Definition outcome_of (th : pthread) : poutcome * option N :=
-  match tpc th with
-  | PReturned (RMsg m) | PLeaving (RMsg m) | PEol (RMsg m) => (OMsg (mtag m) (mhid m =? cid th), twid th)
-  | PReturned RErrEoL | PReturned RErrWrite | PLeaving RErrWrite | PEol RErrWrite => (OErr, None)
-  | PReturned _ | PLeaving _ | PEol _ => (OErr, twid th)
-  | PWaiting => (OWait, twid th)
-  | PStart | PAdded => (OWait, None)
+Definition pl_outcome_of (th : pl_thread) : pl_outcome * option N :=
+  match pl_tpc th with
+  | PlPReturned (PlRMsg m) | PlPLeaving (PlRMsg m) | PlPEol (PlRMsg m) => (PlOMsg (pl_mtag m) (pl_mhid m =? pl_cid th), pl_twid th)
+  | PlPReturned PlRErrEoL | PlPReturned PlRErrWrite | PlPLeaving PlRErrWrite | PlPEol PlRErrWrite => (PlOErr, None)
+  | PlPReturned _ | PlPLeaving _ | PlPEol _ => (PlOErr, pl_twid th)
+  | PlPWaiting => (PlOWait, pl_twid th)
+  | PlPStart | PlPAdded => (PlOWait, None)
   end.
 
-Definition outcomes (s : pstate) : list (poutcome * option N) :=
-  rev_append (map (fun kt => outcome_of (snd kt)) (threads s)) [].
+Definition pl_outcomes (s : pl_state) : list (pl_outcome * option N) :=
+  rev_append (map (fun kt => pl_outcome_of (snd kt)) (pl_threads s)) [].
 
-Definition history_outcomes (tcp : bool) (q0 : N) (evs : list pevent) : list (poutcome * option N) * bool :=
-  let s := run_history tcp q0 evs in (outcomes s, closed s).
+Definition pl_history_outcomes (tcp : bool) (q0 : N) (evs : list pl_event) : list (pl_outcome * option N) * bool :=
+  let s := pl_run_history tcp q0 evs in (pl_outcomes s, pl_closed s).
 
 (* ---------- executable oracle of the property on an observed run (used by the checks) ----------
    obs: per exchange (wire id the server saw for it, returned tag or none);  sent: (wire id, tag) the server
    emitted.  Holds iff every returned tag was emitted for the exchange's own wire id and no tag is returned
    twice (tags are unique per emitted instance in the harness). *)
-Fixpoint mem_pair (w t : N) (l : list (N * N)) : bool :=
-  match l with [] => false | (a, b) :: r => ((a =? w) && (b =? t)) || mem_pair w t r end.
-Fixpoint memN (x : N) (l : list N) : bool :=
-  match l with [] => false | a :: r => (a =? x) || memN x r end.
+Fixpoint pl_mem_pair (w t : N) (l : list (N * N)) : bool :=
+  match l with [] => false | (a, b) :: r => ((a =? w) && (b =? t)) || pl_mem_pair w t r end.
+Fixpoint pl_memN (x : N) (l : list N) : bool :=
+  match l with [] => false | a :: r => (a =? x) || pl_memN x r end.
 
 Fixpoint pl_oracle_go (obs : list (option N * option N)) (sent : list (N * N)) (seen : list N) : bool :=
   match obs with
   | [] => true
   | (_, None) :: r => pl_oracle_go r sent seen
   | (None, Some _) :: _ => false
-  | (Some w, Some t) :: r => mem_pair w t sent && negb (memN t seen) && pl_oracle_go r sent (t :: seen)
+  | (Some w, Some t) :: r => pl_mem_pair w t sent && negb (pl_memN t seen) && pl_oracle_go r sent (t :: seen)
   end.
 Definition pl_oracle (obs : list (option N * option N)) (sent : list (N * N)) : bool := pl_oracle_go obs sent [].
